@@ -289,7 +289,16 @@ func c14RunDoc(c *vfCtx, cs c14Case, d *vfJ, T string, inVal any, opt *c14Opt) {
 			if !replay(fmt.Sprintf("presentation ws=%d order=%d (string) %q", ws, ord, vfClip(p)), p) {
 				return
 			}
-			if !replay(fmt.Sprintf("presentation ws=%d order=%d ([]byte)", ws, ord), []byte(p)) {
+			// the caller's []byte: handed to the library twice (it must still hold the document afterwards)
+			buf := []byte(p)
+			if !replay(fmt.Sprintf("presentation ws=%d order=%d ([]byte)", ws, ord), buf) {
+				return
+			}
+			if string(buf) != p {
+				c.violation("", fmt.Sprintf("the call rewrote the caller's []byte input: %q became %q", vfClip(p), vfClip(string(buf))), cs)
+				return
+			}
+			if !replay(fmt.Sprintf("presentation ws=%d order=%d (the same []byte a second time)", ws, ord), buf) {
 				return
 			}
 		}
@@ -410,6 +419,12 @@ func c14RunInvalid(c *vfCtx, cs c14Case, T string) {
 	}
 	for _, g := range []string{T + " x", T + T, T + " " + T, T + ",", strings.ReplaceAll(T, `"`, `'`), "[" + T + ",]", `{"a":` + T + `,}`, "nul", "tru", "undefined", "", " ", T + "\x00", "\xef\xbb\xbf" + T, "// c\n" + T, "{a:" + T + "}", "[" + T, T + "]"} {
 		cands[g] = true
+	}
+	// characters that Unicode (and Go's TrimSpace) call white space but JSON does not, around an otherwise valid document
+	for _, w := range []string{"\v", "\f", "\u0085", "\u00a0", "\u2028", "\u2029", "\u3000", "\u1680", "\u2003", "\ufeff"} {
+		cands[w+T] = true
+		cands[T+w] = true
+		cands[" "+w+"\n"+T+"\n"+w] = true
 	}
 	n := 0
 	for in := range cands {
